@@ -5,7 +5,7 @@ MODELS = ["Aero", "Drag", "Loads", "Beam", "BeamTables", "Constants"]
 STREAMS = [aero_streams.stream_points_and_mesh, aero_streams.stream_eval_mtx, aero_streams.stream_geometry_and_flow, drag.stream_wave, drag.stream_viscous, loads.stream_weight_cg, beam.stream_fem]
 ORACLES = [c04.oracle_aero, c04.oracle_offplane, c04.oracle_struct, c04.oracle_aerostruct, c04.oracle_geometry, c04.oracle_inertial_loads]
 UNPROVED = ["structure half = full: the equilibrium rows of the modelled half are proved identical (C04_structure_left_half_rows_of_full_model_are_the_half_model_rows) and the inertial load sources too; that the full beam's solution under mirror-symmetric loads restricted to the left half IS the half beam's solution additionally needs uniqueness (invertibility of the clamped matrix), which is a hypothesis throughout: the end-to-end equality is validated by the SpatialBeamAlone half/full oracle",
-            "the instantiation of C04_half_solution_extends_to_full with the concrete AIC matrix (symmetry of A from the ring/normal mirror lemmas, zero sideslip for b) is not assembled into one theorem",
+            "aerodynamics half = full is assembled into one theorem on the model's stages (C04_half_model_solution_is_the_full_model_solution: ghost lattice, collocation points, normals, symmetric code path, zero sideslip, any sizes); existence / uniqueness of the solution is a hypothesis; ground images are covered by the folding lemma for the kernel (C04_symmetric_influence_folds_mirror_panel) and the oracle, not by the assembled theorem",
             "CDv / CM / cg / fuel half-vs-full equalities are validated by the oracle (the factor-2 statements proved are lift/drag and mass)"]
 ASSUMPTIONS = [
     "mirror-symmetric configuration at zero sideslip; spline control-point distributions constant along the span in the half/full oracle pairs (a B-spline over the full span is not the mirror image of one over the half span)",
